@@ -79,6 +79,8 @@ func (e *muxEnd) Write(b []byte) (int, error) {
 	e.n.mu.Lock()
 	defer e.n.mu.Unlock()
 	if e.closed || e.p.failed {
+		// a send that fails: no frame leaves, but the model must know which connection was picked
+		e.n.events = append(e.n.events, fmt.Sprintf("x%s%d", muxSide(e.side), e.p.id))
 		return 0, muxErrClosed
 	}
 	m := append([]byte(nil), b...)
@@ -484,14 +486,47 @@ func muxRunScenario(line string) string {
 			}
 			p := n.conns[c]
 			n.mu.Lock()
+			was := p.failed
 			p.failed = true
 			p.q[0], p.q[1] = nil, nil
 			n.mu.Unlock()
-			for s := 0; s < 2; s++ {
-				e := p.ends[s]
-				e.once.Do(func() { close(e.dead) })
+			if !was { // a connection that is already broken is left to the N labels
+				for s := 0; s < 2; s++ {
+					e := p.ends[s]
+					e.once.Do(func() { close(e.dead) })
+				}
 			}
 			ret = "r0:0:-"
+		case "B": // the connection breaks; neither read loop has noticed yet
+			c, _ := strconv.Atoi(f[1])
+			if c >= len(n.conns) {
+				ret = "r4:0:-"
+				break
+			}
+			p := n.conns[c]
+			n.mu.Lock()
+			p.failed = true
+			p.q[0], p.q[1] = nil, nil
+			n.mu.Unlock()
+			ret = "r0:0:-"
+		case "N": // the read loop of one side sees the error of a broken connection
+			s := muxSideIdx(f[1])
+			c, _ := strconv.Atoi(f[2])
+			if c >= len(n.conns) {
+				ret = "r4:0:-"
+				break
+			}
+			p := n.conns[c]
+			n.mu.Lock()
+			ok := p.failed && !p.ends[s].closed
+			n.mu.Unlock()
+			if ok {
+				e := p.ends[s]
+				e.once.Do(func() { close(e.dead) })
+				ret = "r0:0:-"
+			} else {
+				ret = "r4:1:-"
+			}
 		case "T":
 			secs, _ := strconv.Atoi(f[1])
 			time.Sleep(time.Duration(secs) * time.Second)
@@ -515,7 +550,11 @@ func muxRunScenario(line string) string {
 				q = append(q, fmt.Sprintf("qc%d:%s%s%s:%d:%d", p.id, vfB(p.ends[0].closed), vfB(p.ends[1].closed), vfB(p.failed), len(p.q[0]), len(p.q[1])))
 			}
 			n.mu.Unlock()
-			q = append(q, fmt.Sprintf("qp%d", len(r.pend)))
+			np := [2]int{}
+			for _, p := range r.pend {
+				np[p.side]++
+			}
+			q = append(q, fmt.Sprintf("qp%d:%d:%d", len(r.pend), np[0], np[1]))
 			ret = strings.Join(q, ",")
 		}
 		synctest.Wait()
